@@ -263,6 +263,7 @@ CONTRACTS += [
 # =====================================================================================================
 def sub(fn, data_shape, ensures, serves, requires=(), raises=None, loops=None, inline=(), returns=Any, defs=None,
         assigns=(), let=None):
+    ensures = {k: (v if 'raised' in v else 'implies(not raised, %s)' % v) for k, v in ensures.items()}
     return Contract(id='intermediate.' + fn, file=FILE, func='IntermediateCodeGen.' + fn, serves=serves,
                     params={'self': SELF, 'data': data_shape}, requires=list(requires), ensures=ensures,
                     raises=raises or {}, loops=loops or {}, inline=list(inline) + ['IntermediateCodeGen.transOpers'],
@@ -322,3 +323,94 @@ CONTRACTS += [
          'constraints_as_given': 'implies(truthy(data[1]), same(result[1]["constraints"], data[1]))'},
         ['C05', 'C16'], returns=Tup(Str, MapOf())).variant('with-subtype'),
 ]
+
+from contracts.codegen_base import LITDEFS
+
+RANGE_REQ = ['forall(data[0], lambda r: is_tuple(r) and (len(r) == 1 or len(r) == 2) and forall(seq(r), lambda x: '
+             'is_num(x) or (is_str(x) and len(x) >= 3 and (ISHEX(x) or ISBIN(x)))))']
+
+
+def range_handler(fn, key):
+    return sub(fn, Lst(SeqOf()),
+               {'same_number_of_alternatives': 'implies(not raised, len(result["%s"]) == len(data[0]))' % key,
+                'min_max_denote_the_literals_in_order': 'implies(not raised, forall(seq(result["%s"]), lambda j, r: '
+                    'same(r["min"], DENU(data[0][j][0])) and same(r["max"], DENU(data[0][j][len(data[0][j]) - 1]))))' % key,
+                'only_that_member': 'implies(not raised, forall(result, lambda k: k == "%s"))' % key},
+               ['C05'], requires=RANGE_REQ, defs=LITDEFS,
+               raises={'PySmiSemanticError': True, 'ValueError': True},
+               loops={1: {'invariant': ['len(%s) == _i' % VARN[fn],
+                                        'forall(seq(%s), lambda j, r: same(r["min"], DENU(data[0][j][0])) and '
+                                        'same(r["max"], DENU(data[0][j][len(data[0][j]) - 1])))' % VARN[fn]]}},
+               returns=MapOf())
+
+
+VARN = {'genIntegerSubType': 'ranges', 'genOctetStringSubType': 'sizes'}
+
+CONTRACTS += [
+    range_handler('genIntegerSubType', 'range'),
+    range_handler('genOctetStringSubType', 'size'),
+    sub('genEnumSpec', Lst(SeqOf()),
+        {'enumeration_holds_every_label': 'not raised and forall(data[0], lambda p: p[0] in result["enumeration"])',
+         'labels_keep_their_values': 'implies(DISTINCT_LABELS(data[0]), forall(data[0], lambda p: '
+                                     'same(result["enumeration"][p[0]], p[1])))',
+         'nothing_else': 'forall(result["enumeration"], lambda k, v: exists(data[0], lambda p: p[0] == k and same(p[1], v)))'},
+        ['C05'], requires=['forall(data[0], lambda p: is_tuple(p) and len(p) == 2 and is_str(p[0]))'], returns=MapOf()),
+]
+
+# ---------------------------------------------------------------- BITS, rows, tables, type declarations
+CONTRACTS += [
+    sub('genBits', Lst(SeqOf()),
+        {'bits_type_record': 'not raised and result[0] == "scalar" and result[1]["type"] == "Bits" and result[1]["class"] == "type"',
+         'every_named_bit_present': 'forall(data[0], lambda p: p[0] in result[1]["bits"])',
+         'positions_kept': 'implies(DISTINCT_LABELS(data[0]), forall(data[0], lambda p: same(result[1]["bits"][p[0]], p[1])))',
+         'nothing_else': 'forall(result[1]["bits"], lambda k, v: exists(data[0], lambda p: p[0] == k and same(p[1], v)))'},
+        ['C05'],
+        requires=['forall(data[0], lambda p: is_tuple(p) and len(p) == 2 and is_str(p[0]) and is_num(p[1]))'],
+        loops={1: {'invariant': [
+            'forall(lambda j: implies(0 <= j and j < _i, data[0][j][0] in outDict["bits"]))',
+            'forall(outDict["bits"], lambda k, v: exists(data[0], lambda p: p[0] == k and same(p[1], v)))',
+            'implies(DISTINCT_LABELS(data[0]), forall(lambda j: implies(0 <= j and j < _i, '
+            'same(outDict["bits"][data[0][j][0]], data[0][j][1]))))',
+            'outDict["type"] == "Bits" and outDict["class"] == "type"']}},
+        returns=Tup(Str, MapOf())),
+    sub('genConceptualTable', Lst(Tup(Str, Str)),
+        {'table_node': 'not raised and result == ("table", "")'}, ['C06'],
+        # the row type of a SEQUENCE OF is always in _symtable_rows (symtable.genConceptualTable), so genRow
+        # yields ('row', '') here
+        requires=['data[0] == ("row", "")'], returns=Tup(Str, Str)),
+    sub('genRow', Lst(Str),
+        {'row_iff_target_of_sequence_of': 'implies(py_replace(data[0], "-", "_") in self.symbolTable[self.moduleName[0]]["_symtable_rows"], '
+                                          'not raised and result == ("row", ""))',
+         'else_plain_type': 'implies(not raised and py_replace(data[0], "-", "_") not in self.symbolTable[self.moduleName[0]]["_symtable_rows"], '
+                            'result[0] == "scalar" and same(result[1]["type"], py_replace(self.SMI_TYPES.get(data[0], data[0]), "-", "_")))'},
+        ['C06'], requires=['self.moduleName[0] in self.symbolTable', 'is_dict(self.symbolTable[self.moduleName[0]])',
+                           '"_symtable_rows" in self.symbolTable[self.moduleName[0]]',
+                           'is_list(self.symbolTable[self.moduleName[0]]["_symtable_rows"])'],
+        returns=Any),
+    sub('genTypeDeclarationRHS', Lst(Tup(Any, Any)),
+        # a plain SYNTAX on the right hand side: (parent type, {'type': attributes}); SEQUENCE / CHOICE right hand
+        # sides carry no attributes and yield an empty record (which genTypeDeclaration skips)
+        {'parent_type_kept': 'not raised and implies(truthy(data[0][1]), same(result[0], data[0][0]))',
+         'type_member_value': 'implies(truthy(data[0][1]), same(result[1]["type"], data[0][1]) and '
+                              'forall(result[1], lambda k: k == "type"))',
+         'no_attributes_no_record': 'implies(not truthy(data[0][1]), is_dict(result) and not truthy(result))'},
+        ['C05', 'C03'], returns=Any),
+    sub('genTypeDeclarationRHS', Lst(Any, Any, Any, Any, Tup(Any, Any)),
+        merged({'parent_type_kept': 'not raised and same(result[0], data[4][0])',
+                'type_member_value': 'same(result[1]["type"], data[4][1])',
+                'class_textual_convention': 'result[1]["class"] == "textualconvention"',
+                'no_other_member': 'forall(result[1], lambda k: k in ("type", "class", "displayhint", "status", "description", "reference"))'},
+               {k.replace('result[', 'result[1]['): v.replace('in result', 'in result[1]').replace('result["', 'result[1]["').replace('not raised and', '').replace('implies(not raised,', 'implies(True,')
+                for k, v in merged(opt('displayhint', 'data[0]'), opt('status', 'data[1]'),
+                                   opt('description', 'data[2]', TEXT), opt('reference', 'data[3]', TEXT)).items()}),
+        ['C05', 'C03', 'C15'], returns=Tup(Any, MapOf())).variant('textual-convention'),
+]
+
+from pyvc import pybuiltins as _B2
+
+
+def _sorted(it, args, kwargs):
+    return pv.VList(seq=_B2.sorted_facts(it, it.seq_term(args[0])))
+
+
+_B2.SPEC_FUNCS['SORTED'] = _sorted
